@@ -46,9 +46,8 @@ LEVEL_NOTE = ("Trusted: Lean kernel; the three standard axioms; translate/c17_ta
               "by the count() expression of the same run), isXMLLetterOrDigit (a predicate; ASCII + a few letters in the driver), "
               "isNodeAfter (arbitrary). Modelled with correspondence but without theorems: attribute nodes as context/counted nodes, "
               "value= rounding and range, Greek alphabetic numbering. Not modelled: letter-value=traditional (XalanNumberingResourceBundle), "
-              "NumberToDOMString(double) for values that bypass formatting, namespace nodes (two direct tests). Known findings: zero "
-              "count of level=any, single-punctuation format, value >= 2^64, attribute counted under level=any (patches proposed), "
-              "default count on a namespace node.")
+              "NumberToDOMString(double) for values that bypass formatting, namespace nodes (two direct tests). Known finding: default "
+              "count on a namespace node (the earlier findings are fixed in /repo).")
 DESIGN_REF = "DESIGN.md section 5, C17; design/C17.md"
 
 THEOREMS = [
